@@ -775,10 +775,10 @@ pub fn def() -> PropertyDef {
                (termination). Non-trivial: mux case with audio / metadata / alias; every invalid, validate (two inputs) and info case",
         assumptions: &["--creation-time is not among the listed options and is not generated", "ASCII whitespace only in hex files"],
         subs: vec![
-            Box::new(PSub { name: "mux_valid", quick: 400, thorough: 8000, strat: s_mux_valid, eval: g_mux }),
-            Box::new(PSub { name: "mux_invalid", quick: 400, thorough: 6000, strat: s_mux_invalid, eval: g_mux }),
-            Box::new(PSub { name: "validate", quick: 432, thorough: 4000, strat: s_validate, eval: g_validate }),
-            Box::new(PSub { name: "info", quick: 300, thorough: 4000, strat: s_info, eval: g_info }),
+            Box::new(PSub { name: "mux_valid", quick: 600, thorough: 10000, strat: s_mux_valid, eval: g_mux }),
+            Box::new(PSub { name: "mux_invalid", quick: 600, thorough: 8000, strat: s_mux_invalid, eval: g_mux }),
+            Box::new(PSub { name: "validate", quick: 576, thorough: 5000, strat: s_validate, eval: g_validate }),
+            Box::new(PSub { name: "info", quick: 400, thorough: 5000, strat: s_info, eval: g_info }),
         ],
     }
 }
